@@ -15,8 +15,8 @@ pub static DEF: PropDef = PropDef {
     level: "fault_enumeration",
     rule: "each case: one valid known-size document (real writer or reference encoder) and, at EVERY tag boundary (offset of every element but the first; documents up to 60 elements, else 40 random boundaries), a junk run of length 1-40 drawn from bytes that are not the first byte of any id of the specification (computed per specification, runs of 0x00 included). The damaged stream is parsed strictly: next() until the first error, then try_recover(), then next() to the end. The precondition 'the tag after the junk still fits inside every enclosing known-size master after the shift' is evaluated from the layout. When it holds: items before the junk are unchanged, exactly one error is reported, try_recover() succeeds, and every remaining item equals the undamaged parse with offsets shifted by the junk length. In every case (also junk before the first tag / after the last one / precondition false): try_recover() does not panic or exceed its step budget, fails only with UnexpectedEOF or ReadError, and no item after recovery reports an offset before the position of the reported error. distinct = (depth of the boundary, junk length class, fits / does not fit, junk class); non-trivial iff the boundary is inside at least one master.",
     assumptions: &["layout of the valid document (reference decoder)", "junk bytes are chosen so that no position inside the junk can start a specification-valid tag"],
-    cases_quick: 8000,
-    cases_thorough: 300_000,
+    cases_quick: 120_000,
+    cases_thorough: 1_500_000,
     floors: &[("insertions", 20_000), ("precondition_true", 5_000), ("precondition_false", 1_000), ("recoveries_compared", 5_000), ("distinct_nontrivial", 40)],
     exhaustive_note: Some("every tag boundary of each generated document with <= 60 elements"),
     run,
